@@ -58,12 +58,20 @@ def Spec.init (ns : Nodes) (eager : Bool) : Spec → TState
   | .alwaysSim _ => .stateless
   | .eventuallySim _ => .flag false
 
-/-- the loop of the eventually-for-protocol `test_iteration` -/
+/-- the loop of the eventually-for-protocol `test_iteration`: the node's entry becomes True when the predicate
+    holds (`if func(node): … = True`), else False when it was absent (`if node.id not in …: … = False`), else
+    stays; the other entries stay.  Written as ONE lookup function per round that consults the previous
+    dictionary once per lookup: the compiled driver evaluates such a function body at every lookup, and a round
+    that consults the previous dictionary twice (test for absence, then the fall-through) doubles the work per
+    round - 2^(rounds) for a single `finalize`. -/
 def noteAll (ns : Nodes) (T : PType) (pred : NodeId → Bool) (d : NodeId → Option Bool) : NodeId → Option Bool :=
   (List.range ns.n).foldl (fun d node =>
     if ns.ptype node == T then
-      let d := if (d node).isNone then Sim.upd d node (some false) else d
-      if pred node then Sim.upd d node (some true) else d
+      fun m =>
+        if m = node then
+          let cur := d node
+          if pred node then some true else if cur.isNone then some false else cur
+        else d m
     else d) d
 
 /-- `TestCase.test_iteration(nodes, iteration, timestamp)`; `none` = FailedAssertionException -/
